@@ -355,6 +355,17 @@ func generate(r *lib.Run, rng *lib.Rand) []scenario {
 		scs = append(scs, scenario{next0: 700, class: "dst", toks: strings.Fields(
 			"vdr.0 s br.1.g.400 s f.dst4.1.0.1 s w.1 br.2.g.400 b4.3.g.400 f.dst4.3.0.8 f.dst4.2.0.15 s w.2 w.3 s vdr.4 s")})
 	}
+	// each path in isolation: a process in which only Ping (IPv4) calls and IPv4 frames occur, one with only
+	// Ping6 and IPv6 frames, one with only the router-source ping: a change to one path alone has a failing
+	// input that involves nothing else
+	for _, iso := range [][3]string{{"b4", "rep4", "req4"}, {"b6", "rep6", "req6"}, {"br", "dst4", "type4x"}} {
+		b, rp, no := iso[0], iso[1], iso[2]
+		q := "q" + b[1:]
+		scs = append(scs, scenario{next0: 65533, class: "iso" + b[1:], toks: strings.Fields(fmt.Sprintf(
+			"%[1]s.0.g.300 %[1]s.1.g.300 %[1]s.2.g.90 s f.%[3]s.0.0.1 f.%[2]s.0.1.2 f.%[2]s.0.3.2 s f.%[2]s.1.0.3 s w.1 f.%[2]s.1.0.3 s "+
+				"w.2 s f.%[2]s.2.0.4 s f.%[2]s.0.0.5 f.%[2]s.0.0.5 s w.0 %[4]s.3.0 f.%[2]s.3.0.6 z.3.T w.3 %[1]s.4.a.100 %[1]s.5.w.100 s "+
+				"%[4]s.6.200 f.%[3]s.6.0.1 z.6.F s", b, rp, no, q))})
+	}
 	// several sessions in one process share the waiter table: pings (v4, v6, router-source) pending on one
 	// session while another is created / used / closed; replies parsed by the pinging session, by another live
 	// session, by a closed session; identifiers handed out alternately; Close of the pinging session itself
